@@ -1,14 +1,14 @@
 #!/bin/bash
-# tools/store_seed.sh PROP i "<vcheck outcome>"  : copy /tmp/seed/PROP/out/{patch,demo,meta}<i> into seeded/PROP-i/
-p=$1; i=$2; outcome="$3"; d=/verif/seeded/$p-$i; mkdir -p $d
-cp /tmp/seed/$p/out/patch$i.diff $d/patch.diff; cp /tmp/seed/$p/out/demo$i.py $d/demo.py
-python3 - "$p" "$i" "$outcome" <<'PY'
+# tools/store_seed.sh PROP i "<vcheck outcome>" [srcroot=/tmp/seed] [dest index=i]
+p=$1; i=$2; outcome="$3"; src=${4:-/tmp/seed}; j=${5:-$i}; d=/verif/seeded/$p-$j; mkdir -p $d
+cp $src/$p/out/patch$i.diff $d/patch.diff; cp $src/$p/out/demo$i.py $d/demo.py
+python3 - "$p" "$i" "$outcome" "$src" "$j" <<'PY'
 import json,sys,subprocess
-p,i,outcome=sys.argv[1:4]
-try: m=json.load(open('/tmp/seed/%s/out/meta%s.json'%(p,i)))
+p,i,outcome,src,j=sys.argv[1:6]
+try: m=json.load(open('%s/%s/out/meta%s.json'%(src,p,i)))
 except Exception as e: m={'property':p,'note':'meta unreadable: %r'%e}
 head=subprocess.check_output(['git','-C','/repo','log','--format=%h','-1']).decode().strip()
-m['confirmed_by_integrator']={'applied_to':'/repo @ '+head,'demo_with_change':'exit 1','demo_without_change':'exit 0',
+m['confirmed_by_integrator']={'applied_to':'/repo @ '+head+' (scratch worktree)','demo_with_change':'exit 1','demo_without_change':'exit 0',
   'baseline_suite_with_change':'38 passed','vcheck':outcome,'caught':'VIOLATION' in outcome}
-json.dump(m,open('/verif/seeded/%s-%s/meta.json'%(p,i),'w'),indent=1)
+json.dump(m,open('/verif/seeded/%s-%s/meta.json'%(p,j),'w'),indent=1)
 PY
